@@ -1,6 +1,7 @@
 package main
 
 import (
+	"strconv"
 	"bytes"
 	"encoding/binary"
 	"errors"
@@ -49,6 +50,7 @@ type sstCase struct {
 	Probes  []int       `json:"probes"` // ranks probed with Contains / Get / ScanStartingAt
 	Ranges  [][2]int    `json:"ranges"` // (lo, hi) pairs probed with ScanRange
 	Cmp     string      `json:"cmp"`    // "" (bytes) | "nocase": writer and readers use the case-insensitive comparator
+	KeyLen  map[string]int `json:"keylen"` // rank -> length: the key of that rank is padded with zero bytes to this length (keeps the rank order)
 }
 
 type sstIn struct {
@@ -197,6 +199,18 @@ func runSST(args []string) error {
 			return err
 		}
 		tr.emit(M{"t": "reset", "case": ci})
+		keys := keys
+		if len(c.KeyLen) > 0 {
+			keys = append([][]byte(nil), keys...)
+			for rs, l := range c.KeyLen {
+				r, _ := strconv.Atoi(rs)
+				if r >= 0 && r < len(keys) && l > len(keys[r]) {
+					k := append(append([]byte(nil), keys[r]...), make([]byte, l-len(keys[r]))...)
+					keys[r] = k
+					rank[string(k)] = r
+				}
+			}
+		}
 		var kcmp skiplist.Comparator[[]byte] = skiplist.BytesComparator{}
 		spelled := map[int][]byte{} // rank -> the spelling that was accepted by the writer
 		if c.Cmp == "nocase" {
